@@ -1,6 +1,8 @@
 import XMT.Drv.Util
 import XMT.StateConc
 import XMT.StateAcc
+import XMT.StateAccLin
+import XMT.StateRT
 namespace XMT.Drv.C13
 open XMT XMT.State XMT.StateConc XMT.StateAcc XMT.Drv
 
@@ -92,6 +94,22 @@ def handle (args : List String) : String :=
       let s := runLS (Sys.init w ps) sc
       if s.completed then s!"mem={hx s.mem} rets={showRets s.thr} casfail=0"
       else s!"incomplete mem={hx s.mem}"
+    | _, _, _ => "bad-op"
+  -- round s3: verdict of call-level linearizability of an interleaved run over ALL methods
+  | ["lin", w, progs, sched] =>
+    match hexNat? w, parseCalls progs, parseSched sched with
+    | some w, some ps, some sc =>
+      let outs := (XMT.StateAccLin.seqOutcomes w ps).eraseDups
+      s!"lin={b01 (XMT.StateAccLin.linearizableA w ps sc)} outcomes={outs.length}"
+    | _, _, _ => "bad-op"
+  -- round s3: the mutator machine with ghost clocks: (thread : schedule position of the call's last access) in order of effect
+  | ["rt", w, progs, sched] =>
+    match hexNat? w, parseProgs progs, parseSched sched with
+    | some w, some ps, some sc =>
+      let ts := XMT.StateRT.runT (XMT.StateRT.TSys.init w ps) sc
+      let lg := ",".intercalate (ts.thist.map fun te => s!"{te.ev.tid}:{te.fin}")
+      if ts.sys.completed then s!"mem={hx ts.sys.mem} fin={if lg.isEmpty then "-" else lg}"
+      else s!"incomplete mem={hx ts.sys.mem}"
     | _, _, _ => "bad-op"
   | _ => "bad-op"
 
